@@ -14,6 +14,8 @@ def M(optimize=0, stubs=None, key=None):
     """the normalised cardutil modules, loaded once per process from /repo's working tree"""
     k = key or ('std', optimize)
     if k not in _CTX:
+        from vsym import models as _models
+        stubs = dict(stubs or {}, DictReader=_models.CsvStub.DictReader)
         ctx = loader.Context(optimize=optimize, stubs=stubs)
         ctx.load('cardutil.iso8583', 'cardutil.mciipm', 'cardutil.card', 'cardutil.config', 'cardutil.BitArray', 'cardutil.cli',
                  'cardutil.cli.mci_ipm_param_to_csv', 'cardutil.cli.mci_ipm_to_csv', 'cardutil.cli.mci_csv_to_ipm', 'cardutil.cli.mci_ipm_encode',
